@@ -1303,4 +1303,109 @@ example : getPipelinePathN (exFsD true) ["pipelines"] "build.v2" (some ["p"]) = 
   ⟨sameRes_eq (by decide +kernel), sameRes_eq (by decide +kernel), sameRes_eq (by decide +kernel),
    sameRes_eq (by decide +kernel)⟩
 
+/-! ### file kinds at the search locations: only a regular file (symlinks followed) is a hit -/
+
+theorem findPipelineK_eq (fs : Fs) (kind : Path → FKind) (file : List String) (dirs : List Path) :
+    findPipelineK kind file dirs = findPipeline (fs.withKinds kind) file dirs := by
+  induction dirs with
+  | nil => rfl
+  | cons d ds ih =>
+    show (if (kind (d ++ file)).isFile then some (d ++ file) else findPipelineK kind file ds) =
+      (if (kind (d ++ file)).isFile then some (d ++ file) else findPipeline (fs.withKinds kind) file ds)
+    rw [ih]
+
+/-- the kind-map look-up IS the existing look-up on the file system whose `isFile` is "the kind there is a
+    regular file, links followed": every theorem about `getPipelinePathS` / `getPipelinePath` carries over. -/
+theorem getPipelinePathK_eq_S (fs : Fs) (kind : Path → FKind) (sub : List String) (name : Name) (parent : Option Path) :
+    getPipelinePathK fs kind sub name parent = getPipelinePathS (fs.withKinds kind) sub name parent := by
+  cases name with
+  | abs parts => rfl
+  | rel parts =>
+    simp only [getPipelinePathK, getPipelinePathS, findPipelineK_eq fs]
+    rfl
+
+theorem getPipelinePathK_default (fs : Fs) (kind : Path → FKind) (name : Name) (parent : Option Path) :
+    getPipelinePathK fs kind ["pipelines"] name parent = getPipelinePath (fs.withKinds kind) name parent := by
+  rw [getPipelinePathK_eq_S]; rfl
+
+/-- **`resolveK_first_regular`** (every kind map, every sub-directory, every parent): a relative name resolves
+    to `d/<name>.yaml` for the FIRST search location `d` whose entry is a regular file (links followed) - every
+    location before it holds something that is not (nothing, a directory, a link to a directory, a dangling
+    link, a fifo) and is passed over; when no location holds a regular file the result is the not-found error
+    listing all the places searched. -/
+theorem resolveK_first_regular (fs : Fs) (kind : Path → FKind) (sub parts : List String) (parent : Option Path) :
+    (∃ pre d post, searchDirsS fs sub parent = pre ++ d :: post ∧
+        (kind (d ++ fileParts parts)).isFile = true ∧
+        (∀ e ∈ pre, (kind (e ++ fileParts parts)).isFile = false) ∧
+        getPipelinePathK fs kind sub (.rel parts) parent = .ok (d ++ fileParts parts)) ∨
+    ((∀ e ∈ searchDirsS fs sub parent, (kind (e ++ fileParts parts)).isFile = false) ∧
+        getPipelinePathK fs kind sub (.rel parts) parent =
+          .error (notFoundMsg ("/".intercalate (fileParts parts)) (searchDirsS fs sub parent))) := by
+  simp only [getPipelinePathK]
+  generalize searchDirsS fs sub parent = dirs
+  suffices h : ∀ ds : List Path,
+      (∃ pre d post, ds = pre ++ d :: post ∧ (kind (d ++ fileParts parts)).isFile = true ∧
+          (∀ e ∈ pre, (kind (e ++ fileParts parts)).isFile = false) ∧
+          findPipelineK kind (fileParts parts) ds = some (d ++ fileParts parts)) ∨
+      ((∀ e ∈ ds, (kind (e ++ fileParts parts)).isFile = false) ∧ findPipelineK kind (fileParts parts) ds = none) by
+    rcases h dirs with ⟨pre, d, post, h1, h2, h3, h4⟩ | ⟨h1, h2⟩
+    · exact Or.inl ⟨pre, d, post, h1, h2, h3, by rw [h4]⟩
+    · exact Or.inr ⟨h1, by rw [h2]⟩
+  intro ds
+  induction ds with
+  | nil => exact Or.inr ⟨fun e h => absurd h (List.not_mem_nil), rfl⟩
+  | cons a as ih =>
+    by_cases ha : (kind (a ++ fileParts parts)).isFile = true
+    · exact Or.inl ⟨[], a, as, rfl, ha, fun e h => absurd h (List.not_mem_nil), by simp [findPipelineK, ha]⟩
+    · have ha' : (kind (a ++ fileParts parts)).isFile = false := by simpa using ha
+      rcases ih with ⟨pre, d, post, h1, h2, h3, h4⟩ | ⟨h1, h2⟩
+      · refine Or.inl ⟨a :: pre, d, post, by rw [h1]; rfl, h2, ?_, by simp [findPipelineK, ha', h4]⟩
+        intro e he
+        rcases List.mem_cons.mp he with rfl | h
+        · exact ha'
+        · exact h3 e h
+      · refine Or.inr ⟨?_, by simp [findPipelineK, ha', h2]⟩
+        intro e he
+        rcases List.mem_cons.mp he with rfl | h
+        · exact ha'
+        · exact h1 e h
+
+/-- what a non-file entry is makes no difference: two kind maps that agree on "is a regular file" everywhere
+    resolve every name alike - a directory called `<name>.yaml`, a link to one, a dangling link or a fifo at a
+    location is the same as nothing there. -/
+theorem resolveK_only_isFile_matters (fs : Fs) (k k' : Path → FKind) (h : ∀ p, (k p).isFile = (k' p).isFile)
+    (sub : List String) (name : Name) (parent : Option Path) :
+    getPipelinePathK fs k sub name parent = getPipelinePathK fs k' sub name parent := by
+  have : fs.withKinds k = fs.withKinds k' := by
+    simp only [Fs.withKinds]; congr; funext p; exact h p
+  rw [getPipelinePathK_eq_S, getPipelinePathK_eq_S, this]
+
+/-- an absolute name over a kind map: found iff the entry at exactly that path is a regular file (links followed) -/
+theorem resolveK_absolute (fs : Fs) (kind : Path → FKind) (sub parts : List String) (parent : Option Path) :
+    getPipelinePathK fs kind sub (.abs parts) parent =
+      if (kind (fileParts parts)).isFile = true then .ok (fileParts parts)
+      else .error (pathStr (fileParts parts) ++ " does not exist.") := rfl
+
+def exKinds : Path → FKind := fun p =>
+  if p == ["p", "x.yaml"] then .dir else if p == ["w", "x.yaml"] then .linkDir
+  else if p == ["w", "pipelines", "x.yaml"] then .linkFile else if p == ["b", "x.yaml"] then .file
+  else if p == ["w", "g.yaml"] then .dangling else if p == ["w", "pipelines", "g.yaml"] then .dir
+  else if p == ["b", "g.yaml"] then .fifo else .absent
+
+/-- the hypotheses are satisfiable: a directory in the parent dir and a link to a directory in the cwd are passed
+    over, the link to a file in cwd/pipelines is the hit (before the built-in file); with only non-files around
+    the error lists the four places; an absolute name that is a directory does not exist. -/
+example : getPipelinePathK exFs exKinds ["pipelines"] (.rel ["x"]) (some ["p"]) = .ok ["w", "pipelines", "x.yaml"] ∧
+    getPipelinePathK exFs exKinds ["pipelines"] (.rel ["g"]) (some ["p"]) =
+      .error "g.yaml not found in any of the following:\n/p\n/w\n/w/pipelines\n/b" ∧
+    getPipelinePathK exFs exKinds ["pipelines"] (.abs ["p", "x"]) none = .error "/p/x.yaml does not exist." := by
+  refine ⟨?_, ?_, ?_⟩ <;> rfl
+
+/-- NOT pypyr: with `exists()` as the hit test the same look-up stops at the directory in the parent dir - the
+    property's "first existing `<name>.yaml`" is about files, and the two tests differ exactly on these kinds. -/
+theorem exists_test_differs_witness :
+    findPipelineExists exKinds ["x.yaml"] (searchDirsS exFs ["pipelines"] (some ["p"])) = some ["p", "x.yaml"] ∧
+    findPipelineK exKinds ["x.yaml"] (searchDirsS exFs ["pipelines"] (some ["p"])) = some ["w", "pipelines", "x.yaml"] := by
+  constructor <;> rfl
+
 end Pypyr.C19
